@@ -33,13 +33,56 @@ Proofs/Codec2).  The same law is proven for **every value satisfying the seriali
 Everything the builders build satisfies the invariant (`Codec2.ofValues_sparseWF` / `sparse_ofValues_lawful`,
 `ofValues_wmCoreWF`, `ofValues_wmWF` / `wm_ofValues_lawful`, `build_rlWF` / `build_roundtrip` for every accepted
 call history of the `RLBuilder`), under file-size side conditions only (`hhigh`, `hlow`, `hfirst`, `hsize`).
-For loaded values `Codec2` has only `sparseC_load_shape` (clauses 1, 4, 5 of `sparseWF`) and
-`wmCoreC_load_shape` (the `enableAll` clause of `wmCoreWF`); there is **no** theorem "whatever `load` returns on an
-arbitrary accepted file satisfies the full invariant" for any of the four codecs (nor for `wmC`, `rlC` any shape
-theorem), and it cannot be assembled from the parts: the primitive loaders do not check the representation
-invariant of what they return — already `rawVecC.load` accepts a file whose value violates `RawVec.WF`, which
-all four invariants require of their parts (`example` at the end of the file).  On a *serialization* the loaded
-value is the original, hence satisfies the invariant.
+**Values returned by the loaders on an arbitrary accepted file** (section "what the loaders return"; lemmas in
+Proofs/LoadWF).  For each loader the predicate `LoadWF.…Ld` lists exactly the checks it performs; `…WF → …Ld`
+(`load_checks_weaker_than_invariants`), every loaded value satisfies `…Ld` (for the types whose loader *builds*
+supports — sparse vector, wavelet matrix — under the agreement condition stated below) and every `…Ld` value obeys
+the codec law (`loaded_values_obey_codec_law`: round trip with any continuation, every strict prefix refused with
+`eof`), so the generic statements of this file and of C14 apply to loaded values although they need **not** satisfy
+the representation invariants.  The `loaded_value_reserializes_*` theorems: if `c.load es = ok (x, rest)` then
+ (i)  `es = c.ser x ++ rest` — what was read is exactly the serialization of the returned value — and
+ (ii) `c.load (c.ser x ++ rest') = ok (x, rest')` for every `rest'` — the returned value loads back;
+ * both hold **exactly, without any hypothesis**, for `rawVecC`, `intVecC`, `rankSupC`, `selSupC` and `rlC m` (both
+   modes); for these `…Ld x ↔ x is returned by the loader on some file` (`loadable_values_characterised`);
+ * `bitVectorC`: (i) is **false** — `Option<T>::load` only tests its length prefix for `≠ 0` and never compares it
+   with the size of what follows (`bit_vector_load_not_exact`: `[0,0,0,5,0,0,0]` loads to the value whose
+   serialization is `[0,0,0,1,0,0,0]`).  True: `es` is `ser b ++ rest` up to the three option prefixes
+   (`LoadWF.bitVectorRaw`, same length; with the true sizes as prefixes it is `ser b`:
+   `bit_vector_file_canonical_form`), and (ii) holds for files shorter than 2^64 elements;
+ * `sparseC`, `wmCoreC`, `wmC`: the loader *adds* the support structures the file lacks (`enable_select`,
+   `enable_select_zero`; all three for every level of a core), so (i) is false also in length
+   (`sparse_load_not_exact_and_reload_can_fail_in_model`: a 12-element file whose value serializes to 38
+   elements).  True: `es` is the universe size / width, the raw form of the bitvector(s) `h0` **as stored**, the other parts, and the returned bitvector is
+   `h0` with the supports enabled; when the file carries the supports, `es` is `ser x ++ rest` up to option
+   prefixes.  (ii) holds whenever every support that had to be **built** agrees with the stored `ones` counter —
+   guaranteed if the file carried the supports, or if `LoadWF.CountOk` (`ones` = number of set bits, `len < 2^63`)
+   holds of the stored bitvector — and is **false in the model** otherwise (same theorem, and
+   `wavelet_matrix_core_reload_can_fail_in_model`:
+   `ones = 0` stored with one bit set; the model builds the select support from the set bits of `data`, one
+   superblock, and `BitVector::load` then refuses it against `⌈ones/4096⌉ = 0`).
+   **On such files the model is not a transcription of the code**: `SelectSupport::new` is driven by the stored
+   counter (`count_ones()` / `one_iter()`), and with a counter that disagrees with the data its iterator runs off
+   the words through `word_unchecked` (observed on this very file: the debug profile aborts on the
+   `get_unchecked` precondition inside `SparseVector::load`; the release profile reads past the buffer and
+   "loads").  Statements about files violating `CountOk` whose supports are absent are statements about the model
+   only.
+**Checked on load** (= the `LoadWF.…Ld` predicates): `RawVector` ⌈len/64⌉ = number of words; `IntVector`
+`len * width = data.len`; `SelectSupport` `samples.len/2 = ⌈long.len/4096⌉ + ⌈short.len/64⌉`; `BitVector` `ones ≤ len`
+and, for each *present* support, rank samples = ⌈len/512⌉, select superblocks = ⌈ones/4096⌉, select_zero superblocks =
+⌈(len - ones)/4096⌉; `SparseVector` `low.len = high.count_ones()` (the stored counter) and `high.len = low.len +
+buckets(len, low.width)`; `RLVector` `samples.len/2 = ⌈data.len/64⌉`, and the construction of the three sample
+indexes must succeed (assertions of `SampleIndex::new`, `len - ones`); `WMCore` `1 ≤ width ≤ 64`, all levels of the
+length of the first; `WaveletMatrix` `len` = the length of the levels.
+**Trusted on load** (the representation-invariant clauses no loader checks; each with the accepting model run in the
+non-vacuity section): the unused bits of the last word of a raw vector; `1 ≤ width ≤ 64` of an integer vector
+(`[5,0,0,0]`: five items of width 0; `[0,100,0,0]`: width 100) — and `len * width` is exact in the model whereas the
+code multiplies `usize`s (a product ≥ 2^64 is `InvalidData` in the model; in the code an overflow panic in the
+debug profile and a wrapped product in release: the 32-byte file `[2^32, 2^32, 0, 0]` panics resp. "loads" — observed); the length prefix of a present `Option`; `ones` = number of set bits of `data`; the contents of a present
+rank / select support (only their sizes are compared with `len`, `ones`, `len - ones`); for a sparse vector the low
+width against the universe, positions sorted and below the universe; for a run-length vector that the samples are
+the block starts of `data` and that `data` decodes to `ones` ones in `len` bits (the three sample indexes are
+rebuilt, so they are always right); for a wavelet matrix the contents and length of `first` and the mutual
+consistency of the levels.
 No `_partial` theorem remains.
 -/
 import Sds.Proofs.Codec
@@ -47,6 +90,7 @@ import Sds.Proofs.Supports
 import Sds.Proofs.Mapper
 import Sds.Proofs.Glue2
 import Sds.Proofs.Codec2
+import Sds.Proofs.LoadWF
 
 namespace Sds.C06
 open Sds Outcome
@@ -392,15 +436,194 @@ theorem built_composite_structures_roundtrip (m : Mode) (w n : Nat) (multi : Boo
     (wavelet_matrix_roundtrip V hV hlen hfirst rest).1,
     (run_length_vector_roundtrip m calls hc b hb v hv hsize rest).1⟩
 
-/-! **What is not proven** (no `_partial` theorem remains in this file).  The statements above quantify over the
-invariants, not over "every value of the Lean type": a `Sparse` / `WM` / `RL` record that violates its invariant
-(e.g. an `RL` whose `rankIndex` field is not the index of its samples) is not a value the library can hold, and
-does not round-trip.  `Codec2` proves *builder outputs ⊆ invariant* and the `…_load_shape` clauses, but **not**
-"every value a loader returns on an arbitrary accepted file satisfies the full invariant", and that cannot be
-assembled from the parts: the primitive loaders do not check the representation invariant of what they return
-(the padding bits of a raw vector — see the `example` at the end — which all four invariants require to be zero),
-exactly as the Rust loaders do not.  Such files are outside C06 (they are not serializations of a value); files
-that follow the format document are the subject of C07. -/
+/-! ### what the loaders return on an arbitrary accepted file
+
+`c.load es = ok (x, rest)` for **any** element list `es` — not a serialization of anything known.  See the header
+for the summary; `LoadWF.…Ld` are the checks of the loaders. -/
+
+/-- the loader checks are implied by the serialization invariants (the converse fails: see the examples) -/
+theorem load_checks_weaker_than_invariants (m : Mode) :
+    (∀ v, rawVecWF v → LoadWF.rawVecLd v) ∧ (∀ v, intVecWF v → LoadWF.intVecLd v) ∧
+    (∀ s, selSupWF s → LoadWF.selSupLd s) ∧ (∀ b, bitVectorWF b → LoadWF.bitVectorLd b) ∧
+    (∀ s, Codec2.sparseWF s → LoadWF.sparseLd s) ∧ (∀ c, Codec2.wmCoreWF c → LoadWF.wmCoreLd c) ∧
+    (∀ w, Codec2.wmWF w → LoadWF.wmLd w) ∧ (∀ v, Codec2.rlWFg m v → LoadWF.rlLd m v) :=
+  ⟨fun _ => LoadWF.rawVecLd_of_wf, fun _ => LoadWF.intVecLd_of_wf, fun _ => LoadWF.selSupLd_of_wf,
+    fun _ => LoadWF.bitVectorLd_of_wf, fun _ => LoadWF.sparseLd_of_wf, fun _ => LoadWF.wmCoreLd_of_wf,
+    fun _ => LoadWF.wmLd_of_wf, fun _ => LoadWF.rlLd_of_wfg⟩
+
+/-- **the checks of the loaders suffice for the codec law** (round trip with any continuation; every strict
+prefix refused with `eof`): `bytes_roundtrip_exact`, `back_to_back`, `sequence_of_lawful_is_lawful`,
+`option_roundtrip` and the truncation theorems of C14 apply to every value passing them -/
+theorem loaded_values_obey_codec_law (m : Mode) :
+    LawfulP IsEof rawVecC LoadWF.rawVecLd ∧ LawfulP IsEof intVecC LoadWF.intVecLd ∧
+    LawfulP IsEof rankSupC rankSupWF ∧ LawfulP IsEof selSupC LoadWF.selSupLd ∧
+    LawfulP IsEof bitVectorC LoadWF.bitVectorLd ∧ LawfulP IsEof sparseC LoadWF.sparseLd ∧
+    LawfulP IsEof wmCoreC LoadWF.wmCoreLd ∧ LawfulP IsEof wmC LoadWF.wmLd ∧
+    LawfulP IsEof (rlC m) (LoadWF.rlLd m) :=
+  ⟨LoadWF.rawVecC_lawful_ld, LoadWF.intVecC_lawful_ld, rankSupC_lawfulEof, LoadWF.selSupC_lawful_ld,
+    LoadWF.bitVectorC_lawful_ld, LoadWF.sparseC_lawful_ld, LoadWF.wmCoreC_lawful_ld, LoadWF.wmC_lawful_ld,
+    LoadWF.rlC_lawful_ld m⟩
+
+/-- `RawVector`: (i), (ii) and the checks, for every accepted file -/
+theorem loaded_value_reserializes_raw_vector (es rest : Elems) (v : RawVec)
+    (h : rawVecC.load es = ok (v, rest)) :
+    es = rawVecC.ser v ++ rest ∧ (∀ rest', rawVecC.load (rawVecC.ser v ++ rest') = ok (v, rest')) ∧
+    LoadWF.rawVecLd v :=
+  have ⟨e, l⟩ := LoadWF.rawVecC_load_inv h
+  ⟨e, fun r => (LoadWF.rawVecC_lawful_ld.loads v l).1 r, l⟩
+
+/-- `IntVector` -/
+theorem loaded_value_reserializes_int_vector (es rest : Elems) (v : IntVec)
+    (h : intVecC.load es = ok (v, rest)) :
+    es = intVecC.ser v ++ rest ∧ (∀ rest', intVecC.load (intVecC.ser v ++ rest') = ok (v, rest')) ∧
+    LoadWF.intVecLd v :=
+  have ⟨e, l⟩ := LoadWF.intVecC_load_inv h
+  ⟨e, fun r => (LoadWF.intVecC_lawful_ld.loads v l).1 r, l⟩
+
+/-- `RankSupport` and `SelectSupport` (as stand-alone structures) -/
+theorem loaded_value_reserializes_supports (es rest : Elems) :
+    (∀ s, rankSupC.load es = ok (s, rest) →
+      es = rankSupC.ser s ++ rest ∧ (∀ rest', rankSupC.load (rankSupC.ser s ++ rest') = ok (s, rest'))) ∧
+    (∀ s, selSupC.load es = ok (s, rest) →
+      es = selSupC.ser s ++ rest ∧ (∀ rest', selSupC.load (selSupC.ser s ++ rest') = ok (s, rest')) ∧
+      LoadWF.selSupLd s) :=
+  ⟨fun s h => have ⟨e, l⟩ := LoadWF.rankSupC_load_inv h; ⟨e, fun r => (rankSupC_lawfulEof.loads s l).1 r⟩,
+   fun s h => have ⟨e, l⟩ := LoadWF.selSupC_load_inv h
+     ⟨e, fun r => (LoadWF.selSupC_lawful_ld.loads s l).1 r, l⟩⟩
+
+/-- `RLVector`, both modes: (i) and (ii) hold exactly — the sample indexes are not stored, and reloading rebuilds
+the same ones from the same stored samples -/
+theorem loaded_value_reserializes_run_length_vector (m : Mode) (es rest : Elems) (v : RL)
+    (h : (rlC m).load es = ok (v, rest)) :
+    es = (rlC m).ser v ++ rest ∧ (∀ rest', (rlC m).load ((rlC m).ser v ++ rest') = ok (v, rest')) ∧
+    LoadWF.rlLd m v :=
+  have ⟨e, l⟩ := LoadWF.rlC_load_inv m h
+  ⟨e, fun r => ((LoadWF.rlC_lawful_ld m).loads v l).1 r, l⟩
+
+/-- for the exact codecs the checks characterise the loadable values: `…Ld x` iff some file loads to `x` -/
+theorem loadable_values_characterised (m : Mode) :
+    (∀ v, LoadWF.rawVecLd v ↔ ∃ es r, rawVecC.load es = ok (v, r)) ∧
+    (∀ v, LoadWF.intVecLd v ↔ ∃ es r, intVecC.load es = ok (v, r)) ∧
+    (∀ s, LoadWF.selSupLd s ↔ ∃ es r, selSupC.load es = ok (s, r)) ∧
+    (∀ v, LoadWF.rlLd m v ↔ ∃ es r, (rlC m).load es = ok (v, r)) :=
+  ⟨fun v => ⟨fun l => ⟨_, [], (LoadWF.rawVecC_lawful_ld.loads v l).1 []⟩,
+      fun ⟨_, _, h⟩ => (LoadWF.rawVecC_load_inv h).2⟩,
+   fun v => ⟨fun l => ⟨_, [], (LoadWF.intVecC_lawful_ld.loads v l).1 []⟩,
+      fun ⟨_, _, h⟩ => (LoadWF.intVecC_load_inv h).2⟩,
+   fun s => ⟨fun l => ⟨_, [], (LoadWF.selSupC_lawful_ld.loads s l).1 []⟩,
+      fun ⟨_, _, h⟩ => (LoadWF.selSupC_load_inv h).2⟩,
+   fun v => ⟨fun l => ⟨_, [], ((LoadWF.rlC_lawful_ld m).loads v l).1 []⟩,
+      fun ⟨_, _, h⟩ => (LoadWF.rlC_load_inv m h).2⟩⟩
+
+/-- `BitVector` with any supports: the file is the serialization of the returned value **up to the length
+prefixes of the three options** (`n1 n2 n3`, arbitrary non-zero words for present supports — `Option<T>::load`
+does not compare them with anything); it has the length of the serialization, and for a file shorter than 2^64
+elements the value passes all checks again, so (ii) holds -/
+theorem loaded_value_reserializes_bit_vector (es rest : Elems) (b : BitVector)
+    (h : bitVectorC.load es = ok (b, rest)) (hl : es.length < 2 ^ 64) :
+    (∃ n1 n2 n3 : Word, es = LoadWF.bitVectorRaw b n1 n2 n3 ++ rest) ∧
+    es.length = bitVectorC.size b + rest.length ∧
+    (∀ rest', bitVectorC.load (bitVectorC.ser b ++ rest') = ok (b, rest')) ∧ LoadWF.bitVectorLd b := by
+  obtain ⟨n1, n2, n3, e, l⟩ := LoadWF.bitVectorC_load_inv h
+  have hlen : es.length = bitVectorC.size b + rest.length := by
+    rw [e, List.length_append, LoadWF.bitVectorRaw_length]; rfl
+  have hld := l (by unfold Codec.size at hlen; omega)
+  exact ⟨⟨n1, n2, n3, e⟩, hlen, fun r => (LoadWF.bitVectorC_lawful_ld.loads b hld).1 r, hld⟩
+
+/-- … with the true sizes as prefixes the raw form **is** the serialization -/
+theorem bit_vector_file_canonical_form (b : BitVector) :
+    LoadWF.bitVectorRaw b (LoadWF.optLen rankSupC b.rank) (LoadWF.optLen selSupC b.select)
+      (LoadWF.optLen selSupC b.selectZero) = bitVectorC.ser b :=
+  LoadWF.bitVectorRaw_canon b
+
+/-- (i) is false for `bitVectorC`: a present rank support (of an empty vector) announced as 5 elements long is
+accepted; the value serializes with the true size 1 -/
+theorem bit_vector_load_not_exact :
+    bitVectorC.load [0, 0, 0, 5, 0, 0, 0] = ok (⟨0, ⟨0, #[]⟩, some ⟨#[]⟩, none, none⟩, []) ∧
+    bitVectorC.ser ⟨0, ⟨0, #[]⟩, some ⟨#[]⟩, none, none⟩ = [0, 0, 0, 1, 0, 0, 0] := by decide
+
+/-- `SparseVector`, files shorter than 2^64 elements: what was read is the universe size, a bitvector `h0` in raw
+form, the low parts; the returned `high` is `h0` with both select supports enabled.  If every support that had to
+be built agrees with the stored counter (`CountOk h0`, needed only when a support is absent from the file) the value
+passes all checks again and (ii) holds.  If the file carried both supports, `high = h0` and the file has the length
+of the serialization (it is the serialization up to the option prefixes). -/
+theorem loaded_value_reserializes_sparse_vector (es rest : Elems) (s : Sparse)
+    (h : sparseC.load es = ok (s, rest)) (hl : es.length < 2 ^ 64) :
+    ∃ (h0 : BitVector) (n1 n2 n3 : Word),
+      es = BitVec.ofNat 64 s.len :: (LoadWF.bitVectorRaw h0 n1 n2 n3 ++ intVecC.ser s.low) ++ rest ∧
+      s.high = h0.enableSelect.enableSelectZero ∧ LoadWF.bitVectorLd h0 ∧
+      (((h0.select = none ∨ h0.selectZero = none) → LoadWF.CountOk h0) →
+        LoadWF.sparseLd s ∧ ∀ rest', sparseC.load (sparseC.ser s ++ rest') = ok (s, rest')) ∧
+      (h0.select.isSome → h0.selectZero.isSome →
+        s.high = h0 ∧ es.length = sparseC.size s + rest.length) := by
+  obtain ⟨h0, n1, n2, n3, e, hh, hld, hc⟩ := LoadWF.sparseC_loaded h hl
+  refine ⟨h0, n1, n2, n3, e, hh, hld, fun c => ⟨hc c, fun r => (LoadWF.sparseC_lawful_ld.loads s (hc c)).1 r⟩,
+    fun h1 h2 => ?_⟩
+  have e1 : s.high = h0 := by
+    rw [hh, SupportProofs.enableSelect_of_some h1, SupportProofs.enableSelectZero_of_some h2]
+  refine ⟨e1, ?_⟩
+  have hsz := Codec2.sparseC_size s
+  rw [e1] at hsz
+  rw [e]
+  unfold Codec.size
+  simp only [List.length_cons, List.length_append, LoadWF.bitVectorRaw_length]
+  omega
+
+/-- (i) is false for `sparseC` also in length: a 12-element file without select supports loads to a value whose
+serialization has 38 elements.  And (ii) is **false in the model** when a built support disagrees with the stored
+counter: here `ones = 0` is stored with one bit set, and re-loading the serialization of the returned value fails
+with `InvalidData` (on this file the model is not a transcription of the code — see the header) -/
+theorem sparse_load_not_exact_and_reload_can_fail_in_model :
+    (do let (s, r) ← sparseC.load [2, 0, 1, 1, 1, 0, 0, 0, 0, 1, 0, 0]
+        return (r, s.high.ones, s.high.data.bits.count true, (sparseC.ser s).length,
+          decide (sparseC.load (sparseC.ser s) = fault (.err .invalid)))) = ok ([], 0, 1, 38, true) := by
+  decide +kernel
+
+/-- `WMCore`: the width, then `width` bitvectors `L` in raw form; the returned levels are those with all three
+supports enabled; (ii) under the same agreement condition, level by level -/
+theorem loaded_value_reserializes_wavelet_matrix_core (es rest : Elems) (c : WMCore)
+    (h : wmCoreC.load es = ok (c, rest)) (hl : es.length < 2 ^ 64) :
+    ∃ (L : List BitVector) (ns : List (Word × Word × Word)),
+      es = BitVec.ofNat 64 c.width :: LoadWF.levelsRaw L ns ++ rest ∧
+      c.levels.toList = L.map BitVector.enableAll ∧ L.length = c.width ∧ ns.length = c.width ∧
+      (∀ b, b ∈ L → LoadWF.bitVectorLd b) ∧
+      ((∀ b, b ∈ L → (b.select = none ∨ b.selectZero = none) → LoadWF.CountOk b) →
+        LoadWF.wmCoreLd c ∧ ∀ rest', wmCoreC.load (wmCoreC.ser c ++ rest') = ok (c, rest')) := by
+  obtain ⟨L, ns, e, hlv, hL, hns, hld, hc⟩ := LoadWF.wmCoreC_loaded h hl
+  exact ⟨L, ns, e, hlv, hL, hns, hld,
+    fun c' => ⟨hc c', fun r => (LoadWF.wmCoreC_lawful_ld.loads c (hc c')).1 r⟩⟩
+
+/-- `WaveletMatrix`: the length, the core as above, the `first` array (exact) -/
+theorem loaded_value_reserializes_wavelet_matrix (es rest : Elems) (w : WM)
+    (h : wmC.load es = ok (w, rest)) (hl : es.length < 2 ^ 64) :
+    ∃ (L : List BitVector) (ns : List (Word × Word × Word)),
+      es = BitVec.ofNat 64 w.len ::
+        (BitVec.ofNat 64 w.data.width :: LoadWF.levelsRaw L ns ++ intVecC.ser w.first) ++ rest ∧
+      w.data.levels.toList = L.map BitVector.enableAll ∧ L.length = w.data.width ∧ ns.length = w.data.width ∧
+      (∀ b, b ∈ L → LoadWF.bitVectorLd b) ∧
+      ((∀ b, b ∈ L → (b.select = none ∨ b.selectZero = none) → LoadWF.CountOk b) →
+        LoadWF.wmLd w ∧ ∀ rest', wmC.load (wmC.ser w ++ rest') = ok (w, rest')) := by
+  obtain ⟨L, ns, e, hlv, hL, hns, hld, hc⟩ := LoadWF.wmC_loaded h hl
+  exact ⟨L, ns, e, hlv, hL, hns, hld,
+    fun c' => ⟨hc c', fun r => (LoadWF.wmC_lawful_ld.loads w (hc c')).1 r⟩⟩
+
+/-- the same failure of (ii) in the model for a core: one level, `ones = 0` stored with one bit set -/
+theorem wavelet_matrix_core_reload_can_fail_in_model :
+    (do let (c, r) ← wmCoreC.load [1, 0, 1, 1, 1, 0, 0, 0]
+        return (r, (wmCoreC.ser c).length, decide (wmCoreC.load (wmCoreC.ser c) = fault (.err .invalid)))) =
+      ok ([], 37, true) := by decide +kernel
+
+/-! **What is not proven** (no `_partial` theorem remains in this file).  The round-trip statements of the first
+sections quantify over the invariants, not over "every value of the Lean type": a `Sparse` / `WM` / `RL` record that
+violates even the loader checks (e.g. an `RL` whose `rankIndex` field is not the index of its samples) is not a value
+the library can hold, and does not round-trip.  For **loaded** values the section above replaces the former gap:
+every value a loader returns satisfies `LoadWF.…Ld` of its type (for the composite types with supports absent from
+the file: provided `CountOk`), which is all the codec law needs; it does **not** satisfy the full representation
+invariant in general, and no theorem says so: the clauses listed under "Trusted on load" in the header are checked
+by no loader, exactly as in the Rust code (examples below).  Not proven either: anything about *queries* on a loaded
+value that violates those clauses (C06 is about serialization; files that follow the format document are the
+subject of C07), and nothing is claimed about the Rust code on files whose `ones` counter disagrees with the data
+when supports are built on load — there the model does not follow the code (header). -/
 
 /-! ### non-vacuity: concrete values meeting the hypotheses -/
 
@@ -413,9 +636,19 @@ example : (IntVec.ofList 5 [1, 2, 3]).WF := by decide
 example : rawVecC.load (rawVecC.ser (RawVec.ofBits [true, false, true]) ++ [7, 9]) =
     ok (RawVec.ofBits [true, false, true], [7, 9]) := by decide
 
-/-- a file the raw-vector loader accepts although the value violates the representation invariant (bit 3 set in
-a 3-bit vector): why "whatever a loader returns satisfies the invariant" is not claimed (see above) -/
-example : rawVecC.load [3, 1, 13] = ok (⟨3, #[13]⟩, []) ∧ ¬ (⟨3, #[13]⟩ : RawVec).WF := by decide
+/-- **trusted on load**, one accepting run per clause: a file the raw-vector loader accepts although the value
+violates the representation invariant (bit 3 set in a 3-bit vector) — it satisfies the loader checks, and (i),
+(ii) hold of it -/
+example : rawVecC.load [3, 1, 13] = ok (⟨3, #[13]⟩, []) ∧ ¬ (⟨3, #[13]⟩ : RawVec).WF ∧
+    LoadWF.rawVecLd ⟨3, #[13]⟩ ∧ rawVecC.ser ⟨3, #[13]⟩ = [3, 1, 13] := by
+  refine ⟨by decide, by decide, ⟨by decide, by decide⟩, by decide⟩
+/-- integer vectors of width 0 (five items) and width 100 (no item) are accepted -/
+example : intVecC.load [5, 0, 0, 0] = ok (⟨5, 0, ⟨0, #[]⟩⟩, []) ∧ ¬ (⟨5, 0, ⟨0, #[]⟩⟩ : IntVec).WF ∧
+    intVecC.load [0, 100, 0, 0] = ok (⟨0, 100, ⟨0, #[]⟩⟩, []) ∧ ¬ (⟨0, 100, ⟨0, #[]⟩⟩ : IntVec).WF := by decide
+/-- a bitvector whose `ones` counter (0) is not the number of set bits (1) is accepted -/
+example : bitVectorC.load [0, 1, 1, 1, 0, 0, 0] = ok (⟨0, ⟨1, #[1]⟩, none, none, none⟩, []) ∧
+    ¬ LoadWF.CountOk ⟨0, ⟨1, #[1]⟩, none, none, none⟩ := by
+  refine ⟨by decide, fun h => absurd h.1 (by decide)⟩
 
 /-- a sparse vector meeting `sparseWF`: 3 of 10 positions set, low width 2 (set mode), and a multiset -/
 example : ∃ s, Sparse.ofValues 2 10 false [0, 5, 9] = ok s ∧ Codec2.sparseWF s :=
